@@ -17,7 +17,7 @@ import (
 func init() { registerLeg("c14-interleave", "C14", legC14Interleave) }
 
 func legC14Interleave(c *Ctx) {
-	c.Rule("real makeDeadline, clock period 1 ms: the clock is started, stopped (StopTimeoutClock or natural exit is not needed: a stop leaves `current` stale) and left idle for longer than the timeout; then call B is parked at scheduling point 1 (after its unlocked loads of clockEnd and current), call A runs to completion (refreshes and restarts the clock), B is released; also the symmetric orders (A parked, B complete; both parked, released in either order) and 3 calls; checked: every returned deadline lies at least its timeout (minus the clock lag: 25 ms + stalls measured by a heartbeat goroutine) after the TRUE time at which the call was released; timeouts {5,20,80} ms x idle gaps max(100 ms, {3x,10x} timeout); non-trivial = every scenario")
+	c.Rule("real makeDeadline, clock period 1 ms: the clock is started, stopped (StopTimeoutClock or natural exit is not needed: a stop leaves `current` stale) and left idle for longer than the timeout; then call B is parked at scheduling point 1 (after its unlocked loads of clockEnd and current), call A runs to completion (refreshes and restarts the clock), B is released; also the symmetric orders (A parked, B complete; both parked, released in either order) and 3 calls, and two calls whose timeouts differ by 3 s taking the lock in either order; checked: clockEnd covers every deadline handed out; every returned deadline lies at least its timeout (minus the clock lag: 25 ms + stalls measured by a heartbeat goroutine) after the TRUE time at which the call was released; timeouts {5,20,80} ms x idle gaps max(100 ms, {3x,10x} timeout); non-trivial = every scenario")
 	c14ClockMu.Lock() // the timeout clock is one process-wide object: never share it with leg c14-clock
 	defer c14ClockMu.Unlock()
 	regexp2.SetTimeoutCheckPeriod(time.Millisecond)
@@ -30,7 +30,7 @@ func legC14Interleave(c *Ctx) {
 	for rep := 0; rep < c.N(1, 10); rep++ {
 		for _, d := range timeouts {
 			for _, gapMul := range []float64{3, 10} {
-				for _, order := range []string{"B-parked-A-runs", "both-parked-release-B-first", "both-parked-release-A-first", "three-calls"} {
+				for _, order := range []string{"B-parked-A-runs", "both-parked-release-B-first", "both-parked-release-A-first", "three-calls", "long-locks-first-then-short", "short-locks-first-then-long"} {
 					if d == 80*time.Millisecond && gapMul == 10 && !c.Thorough {
 						continue
 					}
@@ -68,10 +68,14 @@ func legC14Interleave(c *Ctx) {
 						deadline int64
 						done     chan struct{}
 						before   int64 // true time in ticks just before the call was released
+						d        time.Duration
 					}
 					calls := make([]*call, nCalls)
 					for i := range calls {
-						calls[i] = &call{park: make(chan struct{}), arrived: make(chan struct{}), done: make(chan struct{})}
+						calls[i] = &call{park: make(chan struct{}), arrived: make(chan struct{}), done: make(chan struct{}), d: d}
+					}
+					if order == "long-locks-first-then-short" || order == "short-locks-first-then-long" {
+						calls[0].d = 3*time.Second + d // differs from the other call by more than the one second of slop in clockEnd
 					}
 					var mu sync.Mutex
 					// the callback cannot know its goroutine: the scenario starts one call at a time and waits for
@@ -98,7 +102,7 @@ func legC14Interleave(c *Ctx) {
 					start := func(k int) {
 						slot <- calls[k]
 						go func(cl *call) {
-							cl.deadline = regexp2.VerifClockMakeDeadline(d)
+							cl.deadline = regexp2.VerifClockMakeDeadline(cl.d)
 							close(cl.done)
 						}(calls[k])
 						select {
@@ -131,6 +135,16 @@ func legC14Interleave(c *Ctx) {
 						start(1)
 						release(1)
 						release(0)
+					case "long-locks-first-then-short":
+						start(0)
+						start(1)
+						release(0)
+						release(1)
+					case "short-locks-first-then-long":
+						start(0)
+						start(1)
+						release(1)
+						release(0)
 					case "three-calls":
 						start(0)
 						start(1)
@@ -140,7 +154,19 @@ func legC14Interleave(c *Ctx) {
 						release(1)
 					}
 					regexp2.VerifSetClockHook(nil)
-					ticks := regexp2.VerifClockTicks(d)
+					// clockEnd covers every deadline handed out (fastclock.go: "clockEnd >= any existing deadline"), else the
+					// clock goroutine stops before that deadline and the match holding it never times out
+					_, clockEnd, _, _, _ := regexp2.VerifClockSnapshot()
+					for k, cl := range calls {
+						select {
+						case <-cl.done:
+							if cs.Direct == "" && clockEnd < cl.deadline {
+								cs.Direct = fmt.Sprintf("after the calls returned clockEnd = %d does not cover the deadline %d of call %d (makeDeadline(%v)): the clock stops first and that deadline is never reached", clockEnd, cl.deadline, k, cl.d)
+							}
+						default:
+						}
+					}
+					_ = 0
 					// the clock value a deadline is computed from may lag the true time by the clock period plus
 					// scheduling stalls (the model's lag; the heartbeat goroutine measures the stalls of this run)
 					lag := regexp2.VerifClockTicks(time.Duration(c14Lag+c14TakeStall())) + 2
@@ -151,9 +177,10 @@ func legC14Interleave(c *Ctx) {
 							cs.Direct = fmt.Sprintf("call %d did not return from makeDeadline within 2 s", k)
 							continue
 						}
+						ticks := regexp2.VerifClockTicks(cl.d)
 						if cs.Direct == "" && cl.deadline < cl.before+ticks-lag {
 							cs.Direct = fmt.Sprintf("call %d: makeDeadline(%v) returned deadline %d, but the true time was already %d ticks when the call was released from scheduling point 1: the deadline lies %d ticks (timeout = %d ticks, lag allowance %d) after it — computed from the stale clock value read before another call refreshed the clock",
-								k, d, cl.deadline, cl.before, cl.deadline-cl.before, ticks, lag)
+								k, cl.d, cl.deadline, cl.before, cl.deadline-cl.before, ticks, lag)
 						}
 					}
 					c.Add(cs)
